@@ -7,6 +7,7 @@
    Memory faults, stack depth and running time of the real binary are observed, not modelled. *)
 Require Import Base Syntax Front Pst.
 Require Import proofs.PstProofs proofs.ModeProofs.
+Require Import Peg gen.Grammar proofs.PegProofs.
 Open Scope string_scope.
 Open Scope list_scope.
 
@@ -72,3 +73,18 @@ Example C16_nonvacuous :
                        T "COMMENT" "// c" []; T "EOI" "" []] in
   wf_idl (canon t) = true /\ pst_to_ast Release false t = Ok [NConst (mkC "K" U8 "7")].
 Proof. split; vm_compute; reflexivity. Qed.
+
+(* text -> pair tree.  The grammar is a value regenerated from idl_grammar.pest on every run; its
+   parser (Peg.v: pest's sequence / choice / repetition / lookahead semantics, implicit skipping,
+   rule kinds, token production) is tied to pest itself by comparing pair trees on every input of
+   the C14 and C16 runs.  "For every input the compiler terminates with accept or reject": a
+   grammar whose rules can be ranked - every rule calls, in the atomicity context its body runs
+   in, only rules of lower rank - is parsed without ever exhausting the depth budget, whatever
+   the bytes of the input are ... *)
+Theorem C16_parser_total : forall g, grammar_ok g = true -> forall inp, parse_with g inp <> RFuel.
+Proof. exact parse_total. Qed.
+Print Assumptions C16_parser_total.
+(* ... and the grammar being checked has such a ranking (computed, then checked, by evaluation) *)
+Theorem C16_parser_total_current : forall inp, parse_with idl_grammar inp <> RFuel.
+Proof. apply parse_total. vm_compute. reflexivity. Qed.
+Print Assumptions C16_parser_total_current.
